@@ -58,6 +58,8 @@ pub struct Profile {
     pub fine_value_limit: u64,
     /// removals, deprecated setters and mint entry points, inputs handed over again
     pub removals: u64,
+    /// coins_per_byte drawn finely (150..420) so that the minimum ADA of ordinary outputs lands on the 2^16 coin-width edge
+    pub fine_cpb: u64,
 }
 
 impl Profile {
@@ -100,6 +102,7 @@ impl Profile {
             boundary_outputs: 0,
             fine_value_limit: 0,
             removals: 80,
+            fine_cpb: 0,
         }
     }
 }
@@ -127,6 +130,9 @@ impl<'p> Gen<'p> {
         let mut r = Rng::stream(seed, 1);
         let vary = pm(&mut r, p.vary_knobs);
         let mut k = sess::gen_knobs(&mut r, vary);
+        if pm(&mut r, p.fine_cpb) {
+            k.cpb = 150 + r.below(270);
+        }
         if pm(&mut r, p.fine_value_limit) {
             k.max_value_size = 150 + r.below(300) as u32;
         }
@@ -653,6 +659,10 @@ pub fn generate(seed: u64, tier: Tier, p: &Profile) -> Scenario {
                 plan.need += coin.unwrap_or(g.min_ada(80)) as u128;
                 plan.pre.push(Op::MintAndOut { script: s, name, qty: q, addr, coin });
             } else {
+                if pm(&mut g.r, p.removals) {
+                    // the same asset minted and burnt again in later calls: the entries cancel out
+                    plan.pre_tail.push(Op::Mint { wit: wit.clone(), name: name.clone(), qty: -(q as i64), set: false });
+                }
                 plan.pre.push(Op::Mint { wit, name, qty: q as i64, set: g.r.chance(1, 3) });
             }
         }
@@ -715,7 +725,8 @@ pub fn generate(seed: u64, tier: Tier, p: &Profile) -> Scenario {
     if pm(&mut g.r, p.metadata) {
         let n = 1 + g.r.below(2);
         for _ in 0..n {
-            let m = match g.r.below(4) {
+            let m = match g.r.below(5) {
+                4 => MetaSpec::Text(g.r.below(1000), *g.r.pick(&[1u8, 21, 22, 32, 33, 63, 64, 65]), *g.r.pick(&[1u8, 1, 2, 3])),
                 0 => MetaSpec::Json(g.r.below(1000), g.r.below(255) as u8),
                 1 => MetaSpec::AuxScripts { native: vec![g.native_ids[0]], plutus: if g.r.chance(1, 2) && !g.plutus_ids.is_empty() { vec![g.plutus_ids[0]] } else { vec![] }, prefer_alonzo: g.r.chance(1, 2) },
                 _ => MetaSpec::Metadatum(g.r.below(1 << 20), g.r.below(255) as u8),
@@ -734,6 +745,13 @@ pub fn generate(seed: u64, tier: Tier, p: &Profile) -> Scenario {
         let n = 1 + g.r.below(4);
         for _ in 0..n {
             let with_script = g.r.chance(1, 2);
+            if g.r.chance(1, 6) && !g.ref_holder.is_empty() {
+                // listed plainly (no size) although a script source may refer to the same UTxO with a size
+                let holders: Vec<usize> = g.ref_holder.values().cloned().collect();
+                let u = *g.r.pick(&holders);
+                plan.pre.push(Op::RefIn(u, false));
+                continue;
+            }
             let u = if with_script {
                 let s = g.r.below(g.w.scripts.len() as u64) as u16;
                 g.holder_of(s)
@@ -846,6 +864,16 @@ pub fn generate(seed: u64, tier: Tier, p: &Profile) -> Scenario {
                 };
                 coll_ops.push(Op::CollReturnAndTotal(OutSpec { addr: ret_addr, coin, assets, datum: None, script_ref: None, min_coin: false }));
             }
+            if g.r.chance(1, 3) {
+                // a second attempt on the same builder that is likely to be refused (return below its minimum ADA)
+                let a2 = g.key_addr();
+                let short = g.r.below(g.min_ada(0).max(2) - 1);
+                if g.r.chance(1, 2) {
+                    coll_ops.push(Op::CollTotalAndReturn(total.saturating_sub(1 + short), a2));
+                } else {
+                    coll_ops.push(Op::CollReturnAndTotal(OutSpec { addr: a2, coin: 1 + short, assets: vec![], datum: None, script_ref: None, min_coin: false }));
+                }
+            }
         }
     }
 
@@ -915,8 +943,13 @@ pub fn generate(seed: u64, tier: Tier, p: &Profile) -> Scenario {
     g.r.shuffle(&mut pre);
     pre.extend(std::mem::take(&mut plan.pre_tail));
     if plan.uses_plutus && g.r.chance(4, 5) {
-        // the script data hash must be in the body before the fee is computed
-        pre.push(Op::PresetScriptDataHash);
+        // the script data hash must be in the body before the fee is computed: a placeholder, or a
+        // first calc_script_data_hash that is repeated after balancing has moved the spend indices
+        if g.r.chance(1, 2) {
+            pre.push(Op::PresetScriptDataHash);
+        } else {
+            pre.push(Op::ScriptDataHash(7));
+        }
     }
     // collateral before or after the other preparation
     if g.r.chance(1, 2) {
@@ -1132,7 +1165,7 @@ pub struct Signed {
 pub fn sign(sc: &Scenario, h: &History, b: &BuiltObs) -> Result<Signed, String> {
     let tx = b.tx.as_ref().ok_or("not a full transaction")?;
     let view = TxView::parse(&b.bytes)?;
-    let cx = Ctx { w: &sc.world, k: &sc.knobs };
+    let cx = Ctx { w: &sc.world, k: &sc.knobs, undeclared_ref_scripts: Default::default() };
     let req = oracle::required(&view, &cx)?;
     let mut keys = req.keys.clone();
     let script_set: BTreeSet<Vec<u8>> = req.scripts.keys().cloned().collect();
